@@ -16,8 +16,8 @@ META = dict(
 
 def plan(ctx, tier, seed):
     hs = []
-    for mode, ropen in ((0, 1), (0, 3), (1, 1), (2, 1), (2, 3)):
+    for mode, ropen in ((0, 1), (0, 3), (3, 1), (3, 3), (1, 1), (2, 1)):
         hs.append(H("C10.S1.m%d.o%d" % (mode, ropen), "C10", src="harness/C10/s1_attr.c", units=libhdf_units(), models=["memio", "herr", "memloops", "printf"],
-                    defs={"MODE": mode, "ROPEN": ropen, "MEMIO_DISK_SZ": 8192}, unwind=5000, kind="S", timeout=1500, symbolic="attribute value bytes",
+                    defs={"MODE": mode, "ROPEN": ropen, "MEMIO_DISK_SZ": 8192}, unwind=5000, kind="S", timeout=2000, symbolic="attribute value bytes",
                     bound="concrete attribute history", group="C10.S1", hang_is_violation=True))
     return hs
